@@ -36,10 +36,22 @@ Value& CHRExpression::value(Context & ctx) const
   case Type::NO_TYPE:
     break;
   case Type::INTEGER:
-    v = Value(new Literal(1, (char)(*val.integer())));
+    if (!val.isNull())
+    {
+      Integer c = *val.integer();
+      if (c < 0 || c > 255)
+        throw RuntimeError(EXC_RT_OUT_OF_RANGE);
+      v = Value(new Literal(1, (char)c));
+    }
     break;
   case Type::NUMERIC:
-    v = Value(new Literal(1, (char)(*val.numeric())));
+    if (!val.isNull())
+    {
+      Numeric d = *val.numeric();
+      if (!(d >= 0.0 && d < 256.0))
+        throw RuntimeError(EXC_RT_OUT_OF_RANGE);
+      v = Value(new Literal(1, (char)(int)d));
+    }
     break;
   default:
     throw RuntimeError(EXC_RT_FUNC_ARG_TYPE_S, KEYWORDS[oper]);
